@@ -165,4 +165,18 @@ PROPS = {
                  thorough=dict(checks=400, shards=12, budget_s=3300, shrink="3m")),
         ],
     ),
+    "C10": dict(
+        level="exploration",
+        text="Exploration by generated search on real meshes: for drawn (source, destination, hop budget) Ping, Traceroute and raw datagrams are judged against the length of the actual "
+             "next-hop chain (reach iff d <= h; otherwise 'message expired' from the node where the budget ran out); with adversarial next hops installed for a phantom destination "
+             "(2- and 3-node loops) link taps count every transmission: exactly h, along the installed hops, with decreasing TTL, then one expiry notice and silence.",
+        note="Trusted: the link taps of the harness; the hook VerifSetRoute (tag verif) that installs next hops. Budgets 0..255 are sampled with bias to the route length, not enumerated.",
+        technique="property-based testing (rapid): generated topologies / budgets against a walk-length oracle, transmissions counted on instrumented links",
+        assumptions=["the routing tables are read after convergence and do not change during a probe (no events are injected)"],
+        parts=[
+            part("hops", "netprops", "TestC10", "C10",
+                 quick=dict(checks=64, shards=8, budget_s=400),
+                 thorough=dict(checks=1600, shards=16, budget_s=3300, shrink="3m")),
+        ],
+    ),
 }
